@@ -18,6 +18,15 @@ def base_cases(rng, tier):
             comp = 'C:%d:%d:%s:%d' % (rng.choice(sels), rng.choice([1, 2, 3]), '1e-10', rng.choice(sorts))
             start = 'I' if rng.below(2) else 'V:r%d' % rng.below(100)
             out.append(dict(cls=cls, n=n, nev=nev, ncv=ncv, fam=fam, gfam=gfam, mseed=rng.below(10 ** 6), comp=comp, start=start))
+        # a Krylov breakdown inside the run (start vector in an invariant subspace smaller than ncv): the operator is then also applied
+        # by expand_basis, so faults are injected into that application too
+        if cls in ('SymEigsSolver', 'HermEigsSolver', 'SymGEigsSolver_Cholesky', 'SymGEigsSolver_RegularInverse') or is_gen(cls):
+            n = rng.range(9, 11)
+            comp = 'C:%d:%d:%s:%d' % (rng.choice(sels), 2, '1e-10', rng.choice(sorts))
+            if is_gen(cls):
+                out.append(dict(cls=cls, n=n, nev=2, ncv=6, fam='gapped', gfam='gblock', mseed=rng.below(10 ** 6), comp=comp, start='V:b%d' % rng.below(100)))
+            else:
+                out.append(dict(cls=cls, n=n, nev=2, ncv=6, fam='gapped', gfam='gnormal', mseed=rng.below(10 ** 6), comp=comp, start='V:s%d' % rng.below(5)))
     return out
 
 
@@ -55,7 +64,7 @@ def line(c, ops, extra=''):
 
 def run(ck, replay=None):
     rng = Rng(ck.seed)
-    ck.rule = ('for every solver class: a small problem, the fault-free run init;compute counted, then for EVERY index k of its operator '
+    ck.rule = ('for every solver class: a small problem (plus, for the standard and the Cholesky/RegularInverse classes, one whose start vector lies in a small invariant subspace so that the run goes through a Krylov breakdown), the fault-free run init;compute counted, then for EVERY index k of its operator '
                'applications (A-operator; B-operator for the generalized classes; pairs of faults in the thorough tier) the run with a fault at k '
                'followed by init;compute; non-trivial = every case (distinct fault index / class)')
     st = regen()
